@@ -25,6 +25,9 @@ def main():
     if "--checks" in sys.argv:
         c = sys.argv[sys.argv.index("--checks") + 1]
         checks = ALL if c == "all" else c.split(",")
+    recheck = "--recheck" in sys.argv   # the change was confirmed earlier: only run the checks again
+    if recheck:
+        outdir = os.path.join(ROOT, "seeded", name)
     meta = json.load(open(os.path.join(outdir, "meta.json")))
     prop = meta.get("property", name[:3])
     if checks is None:
@@ -32,37 +35,43 @@ def main():
     env = dict(os.environ, CARGO_NET_OFFLINE="true")
     env.pop("RUSTFLAGS", None)
     confirm = {}
-    # 1. confirmation in the worktree
-    rc, out = sh("cargo test --offline --no-fail-fast 2>&1 | grep -E '^test result|Running|FAILED|failed'", cwd=wt, env=env)
-    targets = re.findall(r"Running (?:unittests )?(\S+).*?\n(?:.*\n)*?test result: (\w+)\. (\d+) passed; (\d+) failed", out)
-    lines = out.splitlines()
-    cur, res = None, {}
-    for l in lines:
-        m = re.search(r"Running (?:unittests )?(\S+)", l)
-        if m: cur = m.group(1)
-        m = re.search(r"test result: (\w+)\. (\d+) passed; (\d+) failed", l)
-        if m:
-            res[cur or "doctest"] = (m.group(1), int(m.group(2)), int(m.group(3)))
-            cur = None
-    demo_fails_with = any("seeded_demo" in k and v[0] != "ok" for k, v in res.items())
-    others_ok = all(v[0] == "ok" for k, v in res.items() if "seeded_demo" not in k)
-    confirm["suite_passes_with_change"] = others_ok
-    confirm["demo_fails_with_change"] = demo_fails_with
-    # (git stash is shared between worktrees: revert and re-apply the patch instead)
-    patch = os.path.abspath(os.path.join(outdir, "patch.diff"))
-    rcr, o_r = sh(["git", "apply", "-R", patch], cwd=wt)
-    rc, out2 = sh("cargo test --offline --test seeded_demo 2>&1 | grep -E '^test result'", cwd=wt, env=env)
-    if rcr == 0:
-        sh(["git", "apply", patch], cwd=wt)
+    if recheck:
+        confirm = meta.get("confirmed", {})
+    if not recheck:
+        # 1. confirmation in the worktree
+        rc, out = sh("cargo test --offline --no-fail-fast 2>&1 | grep -E '^test result|Running|FAILED|failed'", cwd=wt, env=env)
+        targets = re.findall(r"Running (?:unittests )?(\S+).*?\n(?:.*\n)*?test result: (\w+)\. (\d+) passed; (\d+) failed", out)
+        lines = out.splitlines()
+        cur, res = None, {}
+        for l in lines:
+            m = re.search(r"Running (?:unittests )?(\S+)", l)
+            if m: cur = m.group(1)
+            m = re.search(r"test result: (\w+)\. (\d+) passed; (\d+) failed", l)
+            if m:
+                res[cur or "doctest"] = (m.group(1), int(m.group(2)), int(m.group(3)))
+                cur = None
+        demo_fails_with = any("seeded_demo" in k and v[0] != "ok" for k, v in res.items())
+        others_ok = all(v[0] == "ok" for k, v in res.items() if "seeded_demo" not in k)
+        confirm["suite_passes_with_change"] = others_ok
+        confirm["demo_fails_with_change"] = demo_fails_with
+        # (git stash is shared between worktrees: revert and re-apply the patch instead)
+        patch = os.path.abspath(os.path.join(outdir, "patch.diff"))
+        rcr, o_r = sh(["git", "apply", "-R", patch], cwd=wt)
+        rc, out2 = sh("cargo test --offline --test seeded_demo 2>&1 | grep -E '^test result'", cwd=wt, env=env)
+        if rcr == 0:
+            sh(["git", "apply", patch], cwd=wt)
+        else:
+            out2 = "could not revert patch: " + o_r
+        confirm["demo_passes_without_change"] = bool(re.search(r"test result: ok", out2)) and "FAILED" not in out2
+        confirm["targets"] = {k: list(v) for k, v in res.items()}
+        ok = all(confirm[k] for k in ("suite_passes_with_change", "demo_fails_with_change", "demo_passes_without_change"))
     else:
-        out2 = "could not revert patch: " + o_r
-    confirm["demo_passes_without_change"] = bool(re.search(r"test result: ok", out2)) and "FAILED" not in out2
-    confirm["targets"] = {k: list(v) for k, v in res.items()}
-    ok = all(confirm[k] for k in ("suite_passes_with_change", "demo_fails_with_change", "demo_passes_without_change"))
+        ok = bool(meta.get("confirmed_ok"))
     dest = os.path.join(ROOT, "seeded", name)
     os.makedirs(dest, exist_ok=True)
     for f in ("patch.diff", "seeded_demo.rs"):
-        shutil.copy(os.path.join(outdir, f), os.path.join(dest, f))
+        if os.path.abspath(outdir) != os.path.abspath(dest):
+            shutil.copy(os.path.join(outdir, f), os.path.join(dest, f))
     meta["confirmed"] = confirm
     meta["confirmed_ok"] = ok
     detected, details = [], {}
@@ -98,6 +107,13 @@ def main():
                             shutil.copy(os.path.join(ROOT, rp.group(1)), os.path.join(dest, "replay.json"))
             finally:
                 sh(["git", "-C", "/repo", "checkout", "--", "."])
+    if recheck:
+        # keep the earlier results of the checks not run again
+        old_details = meta.get("check_details", {})
+        old_details.update(details)
+        details = old_details
+        detected = sorted(set(c for c, dd in details.items() if dd.get("exit") and dd.get("violation")))
+        checks = sorted(details)
     meta["checks_run"] = checks
     meta["detected_by"] = detected
     meta["check_details"] = details
